@@ -236,10 +236,52 @@ def ctx_case(r, label):
     return Case(term, desc, kind=label, nontrivial=nontriv)
 
 
+def default_ctx_case(r):
+    """ModbusSlaveContext() built WITHOUT blocks and WITHOUT a zero_mode keyword: the default
+    tables (create(): 65536 cells from address 0) and the default addressing mode"""
+    from pymodbus.datastore import ModbusSlaveContext
+    ctx = ModbusSlaveContext()
+    ops, outs = [], []
+    for _ in range(r.choice([3, 5, 8])):
+        fx = r.choice(FXS)
+        a = r.choice([0, 1, 2, 65533, 65534, 65535, 65536, r.randrange(0, 65536)])
+        c = r.choice([1, 1, 2, 3])
+        k = r.random()
+        try:
+            if k < 0.4:
+                ops.append("CValidate %s %s %s" % (z(fx), z(a), z(c)))
+                outs.append("CB " + boolean(bool(ctx.validate(fx, a, c))))
+            elif k < 0.7:
+                ops.append("CGet %s %s %s" % (z(fx), z(a), z(c)))
+                outs.append("CL " + zlist([canon(v) for v in ctx.getValues(fx, a, c)]))
+            else:
+                ok = bool(ctx.validate(fx, a, c))
+                if not ok:      # keep the 65536-cell tables their size: only accepted writes
+                    ops.append("CValidate %s %s %s" % (z(fx), z(a), z(c)))
+                    outs.append("CB false")
+                    continue
+                vs = [r.randrange(1, 65536) for _ in range(c)]
+                ops.append("CSet %s %s %s" % (z(fx), z(a), zlist(vs)))
+                ctx.setValues(fx, a, vs)
+                outs.append("CNone")
+        except Exception as e:  # noqa: BLE001
+            outs.append("CExc " + pyexn(e))
+    slots = lst("(%s, %s)" % (string(l), nat(i)) for i, l in enumerate("dcih"))
+    # the DOCUMENTED defaults, written out (Props/C18.v proves the generated defaults equal them): one-based
+    # addressing and four tables of 65536 zero cells from address 0 - so that a changed default is a failing input
+    blk = "(BSeq {| sb_addr := 0; sb_vals := repeat 0 (Z.to_nat 65536); sb_def := 0 |})"
+    x = "{| cx_zero := false; cx_slots := %s; cx_blocks := [%s; %s; %s; %s] |}" % (slots, blk, blk, blk, blk)
+    term = "(%s, %s, %s)" % (x, lst(ops), lst(outs))
+    return Case(term, {"default_context": True, "ops": ops, "impl_outputs": outs}, kind="default-ctx", nontrivial=True)
+
+
 def suite_ctx(tier):
     r = common.rng("C18.ctx")
     n = 300 if tier == "quick" else 5000
-    return Suite("slavectx", IMPORTS, "chk_ctx code", [ctx_case(r, "ctx") for _ in range(n)], shard=200)
+    cases = [ctx_case(r, "ctx") for _ in range(n)]
+    rd = common.rng("C18.ctx.default")
+    cases += [default_ctx_case(rd) for _ in range(24 if tier == "quick" else 200)]
+    return Suite("slavectx", IMPORTS, "chk_ctx code", cases, shard=120)
 
 
 # ----------------------------------------------------------------------------- server context
@@ -347,10 +389,10 @@ def replay_case(suite, desc):
     return True
 
 MANIFEST = {
-    "text": ("Universally quantified Coq theorems (Props/C18.v, 20 theorems, all closed under the global context) "
+    "text": ("Universally quantified Coq theorems (Props/C18.v, 24 theorems, all closed under the global context) "
              "about the datastore model instantiated with the arithmetic regenerated from store.py/context.py on "
              "every run: validate <-> all cells populated, read = cells in order, write changes exactly the "
-             "addressed cells and not the extent, read-your-writes, reset, one-based offset, unit routing and the "
+             "addressed cells and not the extent, read-your-writes, reset, refinement to an abstract map over ALL operation histories, one-based offset (also as the default when no zero_mode is given), default table extent 0..65535, unit routing and the "
              "0..247 registration range - for all addresses, counts, block sizes and key sets (unbounded Z / lists). "
              "Tests sample a handful of addresses; the theorems cover every boundary at once."),
     "note": ("Trusted: Coq kernel; the translator's shape matching; the hand-written model of Python list slices and "
